@@ -190,4 +190,4 @@ def srt_op(st, default_order, orders, built):
     out = []
     _struct_leaves(st, default_order, _c(0), _c(1), True, orders, out, counts)
     toks = [t for leaf in out for t in leaf]
-    return "SRT %s %s" % (bytes(built.buf).hex() or "-", " ".join(toks))
+    return ("SRT %s %s" % (bytes(built.buf).hex() or "-", " ".join(toks))).rstrip()      # no leaves: "SRT <buf>"
